@@ -57,6 +57,10 @@ def job_list(ctx, composite_only=False, cap_quick=2500, cap_thorough=20000):
     for k in range(ctx.n(4, 12)):
         j = genconfigs.dense_cells(rng, CFG)
         gen.append({**j, "seed": ctx.seed * 1000 + 300 + k, "max_legs": cap, "kind": "generated-dense"})
+    for k in range(ctx.n(1, 3)):
+        j = genconfigs.activation_variant(ctx.root, CFG)
+        j["overrides"]["FinalTimeEndOfRunEventHandler"] = {"end_of_run_time": rng.choice([8, 15])}
+        gen.append({**j, "seed": ctx.seed * 1000 + 600 + k, "max_legs": cap, "kind": "generated-activation-variant"})
     for k in range(ctx.n(3, 8)):
         j = genconfigs.water_motion(rng, CFG)
         gen.append({**j, "seed": ctx.seed * 1000 + 500 + k, "max_legs": cap, "kind": "generated-water-motion"})
